@@ -52,4 +52,6 @@ let str_of_bool b = if b then "1" else "0"
 
 (* registry of model evaluators: fn name -> (args -> canonical result) *)
 let table : (string, string list -> string) Hashtbl.t = Hashtbl.create 64
-let register name f = Hashtbl.replace table name f
+let register name f =
+  if Hashtbl.mem table name then failwith ("duplicate model evaluator name: " ^ name);
+  Hashtbl.replace table name f
